@@ -1,9 +1,14 @@
 (* C15 runner: decodes a case, runs the model, encodes the result. Executable only.
    kind 0  turbo projection      (0 nx dx x0 rot pol sel pts)        -> (napices rows info)
    kind 1  standard projection   (1 ndim apices meshes pts)          -> (nrows rows info)
+   kind 6  shift operator assembly (6 ndim n A scales rt meshes)       -> (ok Sraw tildeC H)
+   kind 8  kriging system        (8 nx dx x0 rot pol sel pts n S lambda coeffs var y) -> (solution A.lambda At.y rhs)
+   kind 10 ProjConvolution       (10 nxR dxR x0R seismic-nodes nz conv v y) -> (shifts mesh2point point2mesh rows)
+   kind 12 shift operator, per-mesh anisotropy (12 ndim n ((A scales rt) ...) meshes) -> (ok Sraw tildeC)
+   kind 7  Markov coefficients   (7 p)                                 -> (coeffs)
    kind 2  precision operators   (2 n S lambda coeffs v dest)        -> (free assembled cumul training horner Q addfree addcs) *)
 From Coq Require Import List ZArith QArith Bool.
-From Gst Require Import lib.Sx lib.QAux lib.LinAlgQ C15.gen.MSS C15.Model C15.ModelOp.
+From Gst Require Import lib.Sx lib.QAux lib.LinAlgQ C15.gen.MSS C15.Model C15.ModelOp C15.ModelShift C15.ModelKrig C15.ModelConv.
 From Gst Require C16.Model.
 Import ListNotations.
 
@@ -29,6 +34,18 @@ Definition ofProw (p : prow) : sx :=
      ofQ (p_margin p); ofQ (p_locmargin p)].
 Definition ofSrow (r : srow) : sx :=
   L [match sr_found r with Some (im, ws) => L [ofNat im; ofVQ ws] | None => L [] end; ofQ (sr_margin r)].
+
+Definition asMeshFE (s : sx) : option (list nat * list (list Q)) :=
+  match s with
+  | L [ap; cs] => match asListOf asNat ap, asMQ cs with Some a, Some c => Some (a, c) | _, _ => None end
+  | _ => None
+  end.
+
+Definition asParamNS (s : sx) : option (mat * list Q * Q) :=
+  match s with
+  | L [A; sc; rt] => match asMQ A, asVQ sc, asQ rt with Some a, Some b, Some c => Some (a, b, c) | _, _, _ => None end
+  | _ => None
+  end.
 
 Definition run (c : sx) : sx :=
   match c with
@@ -62,5 +79,54 @@ Definition run (c : sx) : sx :=
              ofVQ (add_to_dest_cs n' S' lam' cf' v' dst')]
       | _, _, _, _, _, _ => sx_error 1
       end
+  | L [I 6%Z; nd; n; A; sc; rt; ms] =>
+      match asNat nd, asNat n, asMQ A, asVQ sc, asQ rt, asListOf asMeshFE ms with
+      | Some nd', Some n', Some A', Some sc', Some rt', Some ms' =>
+          match build_shift nd' n' A' sc' rt' ms' with
+          | Some sh => L [I 1; ofList ofVQ (sh_Sraw sh); ofVQ (sh_tildeC sh); ofList ofVQ (sh_H sh)]
+          | None => L [I 0]
+          end
+      | _, _, _, _, _, _ => sx_error 1
+      end
+  | L [I 8%Z; nx; dx; x0; rot; pol; sel; pts; n; Sm; lam; cf; var; y] =>
+      match asVZ nx, asVQ dx, asVQ x0, asMQ rot, asB pol, asVB sel, asMQ pts with
+      | Some nx', Some dx', Some x0', Some rot', Some pol', Some sel', Some pts' =>
+          match asNat n, asMQ Sm, asVQ lam, asVQ cf, asVQ var, asVQ y with
+          | Some n', Some S', Some lam', Some cf', Some var', Some y' =>
+              let t := {| t_grid := mk_grid nx' dx' x0' rot'; t_pol := pol'; t_sel := sel' |} in
+              let rows := fst (proj_turbo t pts') in
+              let Qm := build_Q n' S' lam' cf' in
+              L [match krig_solve n' Qm rows var' y' with Some z => L [I 1; ofVQ z] | None => L [I 0] end;
+                 ofVQ (mesh2point rows lam'); ofVQ (point2mesh n' rows y'); ofVQ (krig_rhs n' rows var' y')]
+          | _, _, _, _, _, _ => sx_error 1
+          end
+      | _, _, _, _, _, _, _ => sx_error 1
+      end
+  | L [I 10%Z; nxR; dxR; x0R; ptsS; nz; cv; v; y; d1; d2] =>
+      match asVZ nxR, asVQ dxR, asVQ x0R, asMQ ptsS, asNat nz, asVQ cv, asVQ v, asVQ y, asVQ d1, asVQ d2 with
+      | Some nx', Some dx', Some x0', Some pts', Some nz', Some cv', Some v', Some y', Some d1', Some d2' =>
+          let t := {| t_grid := mk_grid nx' dx' x0' []; t_pol := false; t_sel := [] |} in
+          let rows := fst (proj_turbo t pts') in
+          let sliceR := Z.to_nat (C16.Model.prodZ nx') in
+          let sliceS := length pts' in
+          let size := length cv' in
+          let sh := pc_shift nx' (Z.of_nat nz') size in
+          let nvertex := (sliceR * (nz' + size - 1))%nat in
+          L [ofList I sh; ofVQ (pc_mesh2point rows sliceR nz' sh cv' v');
+             ofVQ (pc_point2mesh rows sliceR sliceS nz' nvertex sh cv' y'); ofList ofEntries rows;
+             ofVQ (pc_add_mesh2point rows sliceR nz' sh cv' v' d1'); ofVQ (pc_add_point2mesh rows sliceR sliceS nz' nvertex sh cv' y' d2')]
+      | _, _, _, _, _, _, _, _, _, _ => sx_error 1
+      end
+  | L [I 12%Z; nd; n; prm; ms] =>
+      match asNat nd, asNat n, asListOf asParamNS prm, asListOf asMeshFE ms with
+      | Some nd', Some n', Some prm', Some ms' =>
+          match build_shift_ns nd' n' prm' ms' with
+          | Some sh => L [I 1; ofList ofVQ (sh_Sraw sh); ofVQ (sh_tildeC sh)]
+          | None => L [I 0]
+          end
+      | _, _, _, _ => sx_error 1
+      end
+  | L [I 7%Z; p] =>
+      match asNat p with Some p' => L [ofVQ (markov_coeffs p')] | None => sx_error 1 end
   | _ => sx_error 0
   end.
